@@ -222,6 +222,11 @@ func (v *globValidator) validate(pat string) {
 			return
 		}
 		v.prec = false
+		if v.isRef && v.scan.Peek() == '/' {
+			v.scan.Next()
+			v.invalidRefChar('/', "ref name must not start with /")
+			v.prec = true
+		}
 	}
 
 	for v.validateNext() {
